@@ -191,6 +191,8 @@ type renderer struct {
 	prev  int64
 	res   *Result
 	revNo int
+	// lastOp[n] is the last revision (1-based) with an operation on n
+	lastOp map[uint32]int
 }
 
 func (r *renderer) pos() int64 { return int64(r.w.buf.Len() - r.base) }
@@ -220,11 +222,13 @@ func RenderResult(doc *Doc, opt *Options) (*Result, error) {
 	r := &renderer{w: &writer{rng: rng, sx: c.Syntax}, c: c, rng: rng, opt: opt, doc: doc,
 		cur: map[uint32]*slot{}, prev: -1, res: &Result{Choices: c}}
 	// numbers for the serialiser's own objects lie above every number used
-	for _, rev := range doc.Revisions {
+	r.lastOp = map[uint32]int{}
+	for k, rev := range doc.Revisions {
 		for _, op := range rev.Ops {
 			if op.Num >= r.aux {
 				r.aux = op.Num + 1
 			}
+			r.lastOp[op.Num] = k + 1
 		}
 	}
 	if r.aux == 0 {
@@ -913,7 +917,9 @@ func (r *renderer) revision(rev *Revision) error {
 	for n := uint32(1); n < newSize; n++ {
 		if s := get(n); s.Status == Absent {
 			s.ObjState = ObjState{Status: IsFree, Aux: true}
-			if r.c.AutoFreeRetired {
+			// a number that a later revision defines (or frees) must stay
+			// usable: generation 65535 would retire it for good (7.5.4)
+			if r.c.AutoFreeRetired && r.lastOp[n] <= r.revNo {
 				s.Gen, s.Retired = 65535, true
 			} else {
 				newlyFreed = append(newlyFreed, n)
